@@ -78,10 +78,13 @@ func (u *Unit) Discharge(ctx context.Context, ro RunOpts, stats map[string]*Solv
 		el      time.Duration
 	}
 	fast := Solvers(fastMs, ro.Seed)
-	if ro.Tier == "thorough" && fastMs > 5000 {
-		// the secondary solvers get a shorter budget in the whole-script pass: what they cannot do quickly
-		// is raced standalone below anyway, and their long timeouts dominated the thorough tier
-		sec := Solvers(5000, ro.Seed)
+	if ro.Tier == "thorough" && fastMs > 8000 {
+		// whole-script pass of the thorough tier: 8 s per query for the primary solver, 3 s for the
+		// secondary ones - what is left open is raced standalone below with the full budget anyway, and
+		// long timeouts in this pass dominated the wall time of the tier
+		fastMs = 8000
+		fast = Solvers(fastMs, ro.Seed)
+		sec := Solvers(3000, ro.Seed)
 		for i := 1; i < len(fast) && i < len(sec); i++ {
 			fast[i] = sec[i]
 		}
@@ -152,9 +155,9 @@ func (u *Unit) Discharge(ctx context.Context, ro RunOpts, stats map[string]*Solv
 		// (short per-query budget: the cross-check looks for a solver that *refutes* a discharged
 		// obligation; a solver that merely needs long is not informative and would make the tier
 		// take hours on the big plans)
-		xs := Solvers(3000, ro.Seed)
+		xs := Solvers(1000, ro.Seed)
 		for _, s := range xs[1:] {
-			ans, _, el2, _ := RunScript(ctx, s, script, time.Duration(len(proofs)*3000+20000)*time.Millisecond)
+			ans, _, el2, _ := RunScript(ctx, s, script, time.Duration(len(proofs)*1000+20000)*time.Millisecond)
 			agree := 0
 			for i, ob := range proofs {
 				if i >= len(ans) {
